@@ -37,8 +37,13 @@ fn digest(b: &[u8]) -> u32 {
 
 /// Variant name of a message from its Debug form (evidence / finding keys only).
 fn kind_of(dbg: &str) -> String {
-    let inner = dbg;
-    inner.chars().take_while(|c| c.is_alphanumeric() || *c == '_').collect()
+    // first two constructor names: "ResponseNextTx.Some", "RollForward.HeaderContent", "KeepAlive"
+    let toks: Vec<&str> = dbg
+        .split(|c: char| !(c.is_alphanumeric() || c == '_'))
+        .filter(|t| t.chars().next().map(|c| c.is_ascii_uppercase()).unwrap_or(false))
+        .take(2)
+        .collect();
+    toks.join(".")
 }
 
 // ---------------------------------------------------------------- generators
@@ -557,6 +562,7 @@ struct Cx {
     sid: u64,
     exh: usize,        // streams up to this many bytes get all cut sets
     long_streams: u64, // longer streams per protocol
+    cover_streams: u64, // streams of 4 messages drawn so that every message kind shows up
     big: bool,         // include streams spanning several 64 KiB segments
     rt: tokio::runtime::Runtime,
     stats: HashMap<String, u64>,
@@ -637,7 +643,7 @@ fn segs_of(total: usize, cuts: &[usize]) -> Vec<usize> {
 }
 
 /// The cut sets tried for one stream.
-fn cut_sets(rng: &mut Rng, s: &Stream, exh: usize, one_byte_max: usize) -> Vec<Vec<usize>> {
+fn cut_sets(rng: &mut Rng, s: &Stream, exh: usize, one_byte_max: usize, focus: bool) -> Vec<Vec<usize>> {
     let total = s.total();
     let mut sets: Vec<Vec<usize>> = Vec::new();
     if total == 0 {
@@ -646,6 +652,41 @@ fn cut_sets(rng: &mut Rng, s: &Stream, exh: usize, one_byte_max: usize) -> Vec<V
     if total <= exh {
         for mask in 0u64..(1u64 << (total - 1)) {
             sets.push((1..total).filter(|i| mask >> (i - 1) & 1 == 1).collect());
+        }
+        return sets;
+    }
+    if focus {
+        // coverage streams: cuts inside the head of every message (where the variant is decided),
+        // just before its end and at its end; a few double / random cut sets; 1-byte segments
+        sets.push(vec![]);
+        let mut singles = Vec::new();
+        let mut start = 0;
+        for end in s.ends() {
+            for d in 1..=4 {
+                singles.push(start + d);
+            }
+            singles.push(end.saturating_sub(2));
+            singles.push(end.saturating_sub(1));
+            singles.push(end);
+            start = end;
+        }
+        singles.retain(|x| *x > 0 && *x < total);
+        singles.sort();
+        singles.dedup();
+        for c in &singles {
+            sets.push(vec![*c]);
+        }
+        for _ in 0..4 {
+            sets.push(vec![*rng.pick(&singles), *rng.pick(&singles)]);
+        }
+        for _ in 0..2 {
+            let den = *rng.pick(&[2u64, 5, 20]);
+            let mut c: Vec<usize> = (1..total).filter(|_| rng.below(den) == 0).collect();
+            c.truncate(120);
+            sets.push(c);
+        }
+        if total <= one_byte_max {
+            sets.push((1..total).collect());
         }
         return sets;
     }
@@ -793,15 +834,31 @@ async fn old_cutset<M: Fragment>(s: &Stream, segs: &[usize], ev: &mut Vec<Value>
 }
 
 fn old_proto<M: Fragment + Debug + Gen>(cx: &mut Cx, proto: &str) {
-    let mut plan: Vec<(usize, u8, usize)> = vec![(3, 0, cx.exh)]; // (messages, size class, max bytes)
+    // (messages, size class, max bytes, coverage stream?)
+    let mut plan: Vec<(usize, u8, usize, bool)> = vec![(3, 0, cx.exh, false)];
+    for _ in 0..cx.cover_streams {
+        plan.push((4, 1, 3000, true));
+    }
     for _ in 0..cx.long_streams {
-        plan.push((cx.rng.range(3, 6) as usize, 1, 2000));
+        plan.push((cx.rng.range(3, 6) as usize, 1, 2000, false));
     }
     if cx.big {
-        plan.push((3, 2, 400_000));
+        plan.push((3, 2, 400_000, false));
     }
-    for (n, size, max_total) in plan {
+    let mut seen: std::collections::HashSet<String> = std::collections::HashSet::new();
+    for (n, size, max_total, cover) in plan {
         let mut g = |rng: &mut Rng, sz: u8| {
+            if cover {
+                // draw until a message kind not used yet shows up
+                let mut m = M::gen(rng, 1);
+                for _ in 0..300 {
+                    if seen.insert(kind_of(&format!("{m:?}"))) {
+                        break;
+                    }
+                    m = M::gen(rng, 1);
+                }
+                return m;
+            }
             // big streams: mostly ordinary messages around one or two large ones
             let sz = if sz == 2 && rng.chance(1, 2) { 1 } else { sz };
             M::gen(rng, sz)
@@ -813,7 +870,7 @@ fn old_proto<M: Fragment + Debug + Gen>(cx: &mut Cx, proto: &str) {
         cx.sid += 1;
         let sid = cx.sid;
         cx.out.ev(json!({"ev": "stream", "stack": "old", "proto": proto, "sid": sid, "chans": [s.json()]}));
-        let sets = cut_sets(&mut cx.rng, &s, cx.exh, 150);
+        let sets = cut_sets(&mut cx.rng, &s, cx.exh, 150, cover);
         for (k, cuts) in sets.iter().enumerate() {
             let segs = segs_of(s.total(), cuts);
             let mut ev = vec![json!({"ev": "cuts", "sid": sid, "k": k})];
@@ -927,15 +984,30 @@ async fn new_sock(chans: &[u16], streams: &[&Stream], segs: &[Vec<usize>], mode:
 
 fn new_proto(cx: &mut Cx, idx: usize) {
     let (proto, chan) = N2_PROTOS[idx];
-    let mut plan: Vec<(usize, u8, usize)> = vec![(3, 0, cx.exh)];
+    let mut plan: Vec<(usize, u8, usize, bool)> = vec![(3, 0, cx.exh, false)];
+    for _ in 0..cx.cover_streams {
+        plan.push((4, 1, 3000, true));
+    }
     for _ in 0..cx.long_streams {
-        plan.push((cx.rng.range(3, 6) as usize, 1, 2000));
+        plan.push((cx.rng.range(3, 6) as usize, 1, 2000, false));
     }
     if cx.big && (proto == "blockfetch" || proto == "txsubmission") {
-        plan.push((3, 2, 400_000));
+        plan.push((3, 2, 400_000, false));
     }
-    for (n, size, max_total) in plan {
+    let mut seen: std::collections::HashSet<String> = std::collections::HashSet::new();
+    for (n, size, max_total, cover) in plan {
         let mut g = |rng: &mut Rng, sz: u8| {
+            if cover {
+                let mut m = gen_any_message(chan, rng, 1);
+                for _ in 0..300 {
+                    let dbg = format!("{m:?}");
+                    if seen.insert(kind_of(dbg.split_once('(').map(|x| x.1).unwrap_or(&dbg))) {
+                        break;
+                    }
+                    m = gen_any_message(chan, rng, 1);
+                }
+                return m;
+            }
             let sz = if sz == 2 && rng.chance(1, 2) { 1 } else { sz };
             gen_any_message(chan, rng, sz)
         };
@@ -945,7 +1017,7 @@ fn new_proto(cx: &mut Cx, idx: usize) {
         }
         cx.sid += 1;
         let sid = cx.sid;
-        let sets = cut_sets(&mut cx.rng, &s, cx.exh, 400);
+        let sets = cut_sets(&mut cx.rng, &s, cx.exh, 400, cover);
         cx.out.ev(json!({"ev": "stream", "stack": "new", "proto": proto, "sid": sid, "chans": [s.json()]}));
         for (k, cuts) in sets.iter().enumerate() {
             let segs = segs_of(s.total(), cuts);
@@ -969,7 +1041,7 @@ fn new_proto(cx: &mut Cx, idx: usize) {
             chans_json.push(s2.json());
         }
         cx.out.ev(json!({"ev": "stream", "stack": "sock", "proto": if two { format!("{proto}+{proto2}") } else { proto.to_string() }, "sid": sid, "chans": chans_json}));
-        let sets2 = if two { cut_sets(&mut cx.rng, &s2, cx.exh, 400) } else { vec![] };
+        let sets2 = if two { cut_sets(&mut cx.rng, &s2, cx.exh, 400, true) } else { vec![] };
         let mut nsock = 0;
         for (k, cuts) in sets.iter().enumerate().filter(|x| x.0 % 3 == 0) {
             let segs = segs_of(s.total(), cuts);
@@ -1043,6 +1115,7 @@ pub fn trace(args: &Args) {
         sid: 0,
         exh: args.num("exh", 7) as usize,
         long_streams: args.num("long", 1),
+        cover_streams: args.num("cover", 3),
         big: args.num("big", 1) == 1,
         rt,
         stats: HashMap::new(),
